@@ -1266,10 +1266,7 @@ def _HypInner(t, sub, host, hyps):
             x = subst_params(term, sub)
             if isinstance(host, _Inner):
                 x = host._x(x)
-            for h, v in self.hyps:
-                if h == x:
-                    return v
-            return Terms._decided(self, term)
+            return Terms._decided(self, x)
     return H(t.fn, helpers=t.helpers, flow=t.flow, outer=t.outer,
              hyps=list(hyps), pure=t.pure)
 
